@@ -20,7 +20,7 @@ func init() {
 				"C08.range (EVERY dynamic index and slice bound in the packages that handle gossip input (node, hashgraph, peers, common, crypto, net) is PROVED within [0, len] on every acyclic path by linear entailment — Fourier–Motzkin over the path's comparison literals, loop-induction bounds, len(make(n)) = n, division / remainder by constants, phi equalities at joins — for arbitrary integer arguments; in particular the rolling caches RollingIndex.Get / GetItem / Set that are indexed by wire-supplied SyncRequest.Known values and wire event indexes. Sort callbacks (indexes supplied by package sort) are skipped and ten functions whose bound is not a linear fact are exempt by name with the reason in the evidence notes), C08.shape (a fast-forward response passes a shape validation — nil elements of Peers / PeerSets / Roots / Events, nil Core, Parents of length 2, nil signature map — before its contents are used), " +
 				"C08.dispatch (unknown command bytes / types are answered with an error, nothing is dispatched undecoded), C08.respond (a join promise is removed right after it was answered; no defer inside loops of network-reachable code). " +
 				"NOT decided: general panic-freedom, resource exhaustion by oversized inputs, data races, 'never alters committed history' (covered structurally by C02.frozen, C07, C09, C12)."},
-		Rules: []ruleFunc{c08sink, c08parse, c08const, c08bounds, c08range, c08shape, c08dispatch, c08respond},
+		Rules: []ruleFunc{c08sink, c08parse, c08const, c08bounds, c08range, c08shape, c08dispatch, c08respond, func(p *Prog, r *Report) { itxRule(p, r, "C08.itx") }},
 	})
 }
 
